@@ -147,10 +147,20 @@ def parse_file(path):
                 ptys.append(b.strip())
             body = Body(name, params, ptys, ret, l, kind, i + 1)
         else:
-            m = re.match(r'^(const|static|static mut) (.*?): (.*) = \{$', l)
+            m = re.match(r'^(const|static mut|static) (.*) = \{$', l)
             if m:
-                kind = 'promoted' if 'promoted[' in m.group(2) else m.group(1)
-                body = Body(m.group(2), [], [], m.group(3), l, kind, i + 1)
+                rest = m.group(2)
+                cut = None
+                for k, c, d in scan_top(rest):
+                    if d == 0 and c == ':' and rest[k + 1:k + 2] == ' ':
+                        cut = k
+                        break
+                if cut is None:
+                    i += 1
+                    continue
+                nm, ty = rest[:cut], rest[cut + 2:]
+                kind = 'promoted' if 'promoted[' in nm else m.group(1)
+                body = Body(nm, [], [], ty, l, kind, i + 1)
             else:
                 m = re.match(r'^const (.*?): (.*) = const (.*);$', l)
                 if m:
